@@ -1790,7 +1790,8 @@ class Fxp():
             return getattr(inputs[1], name)(inputs[0])      # (the three operations are commutative: the reflected methods are the same ones)
 
         if method == '__call__' and not kwargs and ufunc in (np.left_shift, np.right_shift) and len(inputs) == 2 and isinstance(inputs[0], Fxp) \
-                and isinstance(inputs[1], (int, np.integer)) and not isinstance(inputs[1], bool):
+                and (isinstance(inputs[1], (int, np.integer)) or (isinstance(inputs[1], np.ndarray) and inputs[1].ndim == 0 and inputs[1].dtype.kind in 'iu')) \
+                and not isinstance(inputs[1], bool):
             # np.left_shift(x, n) and np.right_shift(x, n) are the shift operators of the fixed-point operand
             return inputs[0].__lshift__(inputs[1]) if ufunc is np.left_shift else inputs[0].__rshift__(inputs[1])
 
